@@ -834,11 +834,47 @@ theorem bal_boxAssign (st : St) (tid d s : Nat) : bal (boxAssign st tid d s) = t
     · exact bal_append (bal_rel _) (by simp [bal])
     · exact bal_rel _
 
-/-- the `pre` phase either reads no counter (and pairs every decrement with its release) or is
+theorem bal_relP (st : St) (d fuel : Nat) : bal (relP st d fuel) = true := by
+  induction fuel generalizing d with
+  | zero => exact bal_rel _
+  | succ f ih =>
+    simp only [relP]
+    split
+    · split
+      · split
+        · exact bal_append (ih _) (bal_rel _)
+        · exact bal_rel _
+      · exact bal_rel _
+    · exact bal_rel _
+
+theorem bal_ptrAssign (st : St) (tid d src : Nat) : bal (ptrAssign st tid d src) = true := by
+  simp only [ptrAssign]
+  split
+  · split
+    · exact bal_append (bal_append (by simp [bal]) (bal_relP _ _ _)) (by simp [bal])
+    · simp [bal]
+  · exact bal_relP _ _ _
+
+theorem runT_append {tid : Nat} (a b : List Act) {s : St} :
+    runT s tid (a ++ b) = (runT s tid a).bind (fun s1 => runT s1 tid b) := by
+  induction a generalizing s with
+  | nil => rfl
+  | cons x r ih =>
+    simp only [List.cons_append, runT]
+    cases astep s tid x with
+    | none => rfl
+    | some s1 => exact ih
+
+/-- the `pre` phase either reads no counter (and pairs every decrement with its release) or ends with
     exactly one counter read, after which a successful read is followed by exactly the write -/
 theorem pre_shape (st : St) (tid : Nat) (op : ApiOp) :
     bal (pre st tid op) = true ∨
-    (∃ d ok, pre st tid op = [.readRef d ok] ∧ ∀ s1, isWriting s1 tid = true → ∃ v, post s1 tid op = [.write v]) := by
+    (∃ p d ok, bal p = true ∧ pre st tid op = p ++ [.readRef d ok] ∧
+      ∀ s1, isWriting s1 tid = true → ∃ v r, post s1 tid op = .write v :: r ∧ bal r = true) := by
+  have rd : ∀ (d : Nat) (ok : Bool), (∀ s1, isWriting s1 tid = true → ∃ v r, post s1 tid op = .write v :: r ∧ bal r = true) →
+      ∃ p d' ok', bal p = true ∧ [Act.readRef d ok] = p ++ [.readRef d' ok'] ∧
+        ∀ s1, isWriting s1 tid = true → ∃ v r, post s1 tid op = .write v :: r ∧ bal r = true :=
+    fun d ok h => ⟨[], d, ok, rfl, rfl, h⟩
   cases op <;> simp only [pre]
   case sNew d bytes => left; exact bal_append (bal_rel _) (by simp [bal])
   case sLit d bytes => left; exact bal_append (bal_rel _) (by simp [bal])
@@ -850,10 +886,17 @@ theorem pre_shape (st : St) (tid : Nat) (op : ApiOp) :
     left; split
     · exact bal_shareAssign _ _ _
     · exact bal_append (bal_rel _) (by simp [bal])
-  case sClear d => right; exact ⟨_, _, rfl, fun s1 h => by simp [post, h]⟩
-  case sAppend d bytes => right; exact ⟨_, _, rfl, fun s1 h => by simp [post, h]⟩
-  case sReserve d n => right; exact ⟨_, _, rfl, fun s1 h => by simp [post, h]⟩
+  case sClear d => right; exact rd _ _ (fun s1 h => by simp only [post, h, if_true]; exact ⟨_, [], rfl, rfl⟩)
+  case sAppend d bytes => right; exact rd _ _ (fun s1 h => by simp only [post, h, if_true]; exact ⟨_, [], rfl, rfl⟩)
+  case sReserve d n => right; exact rd _ _ (fun s1 h => by simp only [post, h, if_true]; exact ⟨_, [], rfl, rfl⟩)
   case sDel d => left; exact bal_rel _
+  case sPrepend d bytes =>
+    right
+    refine ⟨_, _, _, ?_, rfl, fun s1 h => by simp only [post, h, if_true]; exact ⟨_, rel (tmpU tid), rfl, bal_rel _⟩⟩
+    split <;> simp [bal]
+  case sResize d n => right; exact rd _ _ (fun s1 h => by simp only [post, h, if_true]; exact ⟨_, [], rfl, rfl⟩)
+  case sEdit d k a b => right; exact rd _ _ (fun s1 h => by simp only [post, h, if_true]; exact ⟨_, [], rfl, rfl⟩)
+  case sPrintf d x => right; exact rd _ _ (fun s1 h => by simp only [post, h, if_true]; exact ⟨_, [], rfl, rfl⟩)
   case sSet d bytes => left; simp [shareAssign, rel, bal]
   case vCopy d s =>
     left; split
@@ -862,10 +905,14 @@ theorem pre_shape (st : St) (tid : Nat) (op : ApiOp) :
   case vAssign d s => left; exact bal_boxAssign _ _ _ _
   case vClear d => left; exact bal_rel _
   case vSetInt d x => left; exact bal_append (bal_rel _) (by simp [bal])
-  case vSetStr d bytes => right; exact ⟨_, _, rfl, fun s1 h => by simp [post, h]⟩
-  case vAppStr d bytes => right; exact ⟨_, _, rfl, fun s1 h => by simp [post, h]⟩
-  case vPush d x => right; exact ⟨_, _, rfl, fun s1 h => by simp [post, h]⟩
-  case vSetList d x => right; exact ⟨_, _, rfl, fun s1 h => by simp [post, h]⟩
+  case vSetStr d bytes => right; exact rd _ _ (fun s1 h => by simp only [post, h, if_true]; exact ⟨_, [], rfl, rfl⟩)
+  case vAppStr d bytes => right; exact rd _ _ (fun s1 h => by simp only [post, h, if_true]; exact ⟨_, [], rfl, rfl⟩)
+  case vPush d x => right; exact rd _ _ (fun s1 h => by simp only [post, h, if_true]; exact ⟨_, [], rfl, rfl⟩)
+  case vSetList d x => right; exact rd _ _ (fun s1 h => by simp only [post, h, if_true]; exact ⟨_, [], rfl, rfl⟩)
+  case vPushA d x => right; exact rd _ _ (fun s1 h => by simp only [post, h, if_true]; exact ⟨_, [], rfl, rfl⟩)
+  case vSetArr d x => right; exact rd _ _ (fun s1 h => by simp only [post, h, if_true]; exact ⟨_, [], rfl, rfl⟩)
+  case vPutM d k x => right; exact rd _ _ (fun s1 h => by simp only [post, h, if_true]; exact ⟨_, [], rfl, rfl⟩)
+  case vSetMap d k x => right; exact rd _ _ (fun s1 h => by simp only [post, h, if_true]; exact ⟨_, [], rfl, rfl⟩)
   case vSwap a b => left; split <;> simp [bal]
   case xCopy d s =>
     left; split
@@ -873,19 +920,19 @@ theorem pre_shape (st : St) (tid : Nat) (op : ApiOp) :
     · apply bal_append (bal_rel _); split <;> simp [bal]
   case xAssign d s => left; exact bal_boxAssign _ _ _ _
   case xClear d => left; exact bal_rel _
-  case xSetStr d bytes => right; exact ⟨_, _, rfl, fun s1 h => by simp [post, h]⟩
-  case xElem d bytes => right; exact ⟨_, _, rfl, fun s1 h => by simp [post, h]⟩
-  case pNew d x => left; simp [bal]
+  case xSetStr d bytes => right; exact rd _ _ (fun s1 h => by simp only [post, h, if_true]; exact ⟨_, [], rfl, rfl⟩)
+  case xElem d bytes => right; exact rd _ _ (fun s1 h => by simp only [post, h, if_true]; exact ⟨_, [], rfl, rfl⟩)
+  case pNew d x => left; exact bal_append (bal_append (by simp [bal]) (bal_relP _ _ _)) (by simp [bal])
   case pCopy d s =>
     left; split
     · rfl
-    · apply bal_append (bal_rel _); split <;> simp [bal]
-  case pAssign d s =>
-    left; split
-    · exact bal_shareAssign _ _ _
-    · exact bal_rel _
-  case pClear d => left; exact bal_rel _
+    · apply bal_append (bal_relP _ _ _); split <;> simp [bal]
+  case pAssign d s => left; exact bal_ptrAssign _ _ _ _
+  case pClear d => left; exact bal_relP _ _ _
   case pSwap a b => left; simp [bal]
+  case pLink d s => left; split <;> first | exact bal_ptrAssign _ _ _ _ | simp [bal]
+  case pNext d => left; split <;> first | exact bal_ptrAssign _ _ _ _ | simp [bal]
+  case pNextOf d s => left; split <;> first | exact bal_ptrAssign _ _ _ _ | simp [bal]
 
 /-- without a successful counter read the `post` phase pairs every decrement with its release -/
 theorem post_bal (s1 : St) (tid : Nat) (op : ApiOp) (hw : isWriting s1 tid = false) : bal (post s1 tid op) = true := by
@@ -908,30 +955,33 @@ theorem apiStep_idle {s s' : St} {tid : Nat} {op : ApiOp} (hp : s.pc tid = .idle
   | none => simp only [h1] at hr; cases hr
   | some s1 =>
     simp only [h1] at hr
-    rcases pre_shape s tid op with hb | ⟨d, ok, hpre, hpost⟩
+    rcases pre_shape s tid op with hb | ⟨p, d, ok, hbp, hpre, hpost⟩
     · have hi := runT_bal _ hb hp h1
       have hw : isWriting s1 tid = false := by simp [isWriting, hi]
       exact runT_bal _ (post_bal s1 tid op hw) hi hr
-    · rw [hpre] at h1
-      simp only [runT] at h1
-      cases h2 : astep s tid (.readRef d ok) with
-      | none => simp only [h2] at h1; cases h1
-      | some s2 =>
-        simp only [h2, Option.some.injEq] at h1
-        subst h1
-        rcases astep_readRef_pc h2 hp with hi | ⟨t, b, hwr⟩
-        · have hw : isWriting s2 tid = false := by simp [isWriting, hi]
-          exact runT_bal _ (post_bal s2 tid op hw) hi hr
-        · have hw : isWriting s2 tid = true := by simp [isWriting, hwr]
-          obtain ⟨v, hv⟩ := hpost s2 hw
-          rw [hv] at hr
-          simp only [runT] at hr
-          cases h3 : astep s2 tid (.write v) with
-          | none => simp only [h3] at hr; cases hr
-          | some s3 =>
-            simp only [h3, Option.some.injEq] at hr
-            subst hr
-            exact astep_write_idle h3
+    · rw [hpre, runT_append] at h1
+      cases h0 : runT s tid p with
+      | none => simp only [h0, Option.bind] at h1; cases h1
+      | some s0 =>
+        simp only [h0, Option.bind, runT] at h1
+        have hi0 := runT_bal _ hbp hp h0
+        cases h2 : astep s0 tid (.readRef d ok) with
+        | none => simp only [h2] at h1; cases h1
+        | some s2 =>
+          simp only [h2, Option.some.injEq] at h1
+          subst h1
+          rcases astep_readRef_pc h2 hi0 with hi | ⟨t, b, hwr⟩
+          · have hw : isWriting s2 tid = false := by simp [isWriting, hi]
+            exact runT_bal _ (post_bal s2 tid op hw) hi hr
+          · have hw : isWriting s2 tid = true := by simp [isWriting, hwr]
+            obtain ⟨v, r, hv, hbr⟩ := hpost s2 hw
+            rw [hv] at hr
+            simp only [runT] at hr
+            cases h3 : astep s2 tid (.write v) with
+            | none => simp only [h3] at hr; cases hr
+            | some s3 =>
+              simp only [h3] at hr
+              exact runT_bal _ hbr (astep_write_idle h3) hr
 
 theorem runT_pc_other {tid tid2 : Nat} (acts : List Act) {s s' : St} (hr : runT s tid acts = some s')
     (hne : tid2 ≠ tid) : s'.pc tid2 = s.pc tid2 := by
